@@ -40,6 +40,9 @@ func (s *Server) manifestDelete(repoStr, arg string) http.HandlerFunc {
 			return
 		}
 		defer repo.Done()
+		// the lookup, the referrers update and the removal are a single step for every other request
+		s.indexMu.Lock()
+		defer s.indexMu.Unlock()
 		index, err := repo.IndexGet()
 		if err != nil {
 			w.WriteHeader(http.StatusNotFound)
@@ -131,7 +134,9 @@ func (s *Server) manifestGet(repoStr, arg string) http.HandlerFunc {
 			return
 		}
 		defer repo.Done()
+		s.indexMu.RLock()
 		index, err := repo.IndexGet()
+		s.indexMu.RUnlock()
 		if err != nil {
 			// TODO: handle different errors (perm denied, not found, internal server error)
 			w.WriteHeader(http.StatusNotFound)
@@ -417,6 +422,10 @@ func (s *Server) manifestPut(repoStr, arg string) http.HandlerFunc {
 				types.AnnotRefName: tag,
 			}
 		}
+		// the index entry and the referrers response (a read-modify-write over several store calls) are a single
+		// step for every other request
+		s.indexMu.Lock()
+		defer s.indexMu.Unlock()
 		err = repo.IndexInsert(desc, addOpts...)
 		if err != nil {
 			w.WriteHeader(http.StatusInternalServerError)
